@@ -97,7 +97,8 @@ def _gen_rows(module, consts, native, tag):
 def _launch_models(ctx):
     dense = 400 if ctx.tier == "quick" else 20000
     return _par({
-        "merkle": lambda: vlib.tlc_ok("MC_Merkle", "MC_Merkle_64.cfg", workers=2, coverage=True, timeout=1200),
+        "merkle": lambda: vlib.tlc_ok("MC_Merkle", "MC_Merkle_64.cfg" if ctx.tier == "quick" else "MC_Merkle_256.cfg", workers=2,
+                                      coverage=True, timeout=1200),
         "merkle_dev": lambda: vlib.tlc("MC_Merkle", "MC_Merkle_64_promote.cfg", workers=1, timeout=600),
         "coinbase": lambda: vlib.tlc_ok("MC_Coinbase", "MC_Coinbase_q.cfg", workers=8, timeout=1800),
         "coinbase_dev": lambda: vlib.tlc("MC_Coinbase", "MC_Coinbase_bug.cfg", workers=2, timeout=600),
@@ -109,7 +110,8 @@ def _launch_models(ctx):
 
 
 def _stage_a_merkle(ctx, res):
-    ctx.stage_a("MC_Merkle_64.cfg", res["merkle"], constants="MaxN=64 Promote=FALSE H=free term",
+    ctx.stage_a("MC_Merkle_64.cfg" if ctx.tier == "quick" else "MC_Merkle_256.cfg", res["merkle"],
+                constants=f"MaxN={64 if ctx.tier == 'quick' else 256} Promote=FALSE H=free term",
                 coverage_required=("LevelEven", "LevelOddLeaves", "LevelOddAbove", "Done"))
     # vacuity guard: with the named deviation TLC must find the counterexample
     r = res["merkle_dev"]
@@ -580,10 +582,11 @@ def _block_events(ctx):
     evs = []
     for _ in range(12 if quick else 400):
         evs.append({"op": "hdr", "f": _hdr_fields(rnd)})
-    sizes = [1, 1, 2, 2, 3, 4, 5, 8, 13, 21, 34, 50] if quick else ([1, 2, 3, 4, 5, 6, 7, 8, 9, 10, 16, 25, 33, 49, 50] * 8 + list(range(1, 51)))
-    for n in sizes:
+    sizes = [1, 1, 2, 2, 3, 4, 5, 8, 13, 21, 34, 50] if quick else ([1, 2, 3, 4, 5, 6, 7, 8, 9, 10, 16, 25, 33, 49, 50] * 12 + list(range(1, 51)) * 2)
+    cycle = [None, None, "f6", None, "f7", None, "f8", None, "f9", None]
+    for k_, n in enumerate(sizes):
         kinds = rnd.choice([["legacy"], ["segwit"], ["legacy", "segwit"], ["legacy", "segwit"], ["legacy", "segwit"]])
-        special = rnd.choice([None, None, None, "f6", "f7", "f8", "f9"]) if n > 1 or rnd.random() < .3 else None
+        special = cycle[k_ % len(cycle)]
         txs = [_gen_tx(rnd, rnd.choice(kinds)) for _ in range(n)]
         if special in ("f7", "f8", "f9"):
             txs[rnd.randrange(n)] = _gen_tx(rnd, special)
@@ -722,7 +725,7 @@ def _mine_cases(ctx):
     cases = []
     for h in heights:
         for regtest in ((True, False) if not quick else (h != 209999,)):
-            for variant in (("legacy", "segwit", "mixed", "empty", "f7") if not quick else (rnd.choice(["segwit", "mixed"]),)):
+            for variant in (("legacy", "segwit", "mixed", "empty", "f7") if not quick else (("f7",) if h == 16 else (rnd.choice(["segwit", "mixed"]),))):
                 n = 0 if variant == "empty" else rnd.choice([1, 2, 3, 4, 5, 7, 12])
                 kinds = {"legacy": ["legacy"], "segwit": ["segwit"], "mixed": ["legacy", "segwit"], "empty": [], "f7": ["segwit", "f7"]}[variant]
                 txs = [_gen_tx(rnd, rnd.choice(kinds)) for _ in range(n)]
